@@ -24,7 +24,7 @@ import c01_gen  # noqa: E402
 
 THEOREMS = ["Wf.indexOf?_bound", "Wf.resolve_bounded", "Wf.resolveList_bounded", "Wf.resolvesAll_ok",
             "Wf.check_filter_ok", "Wf.check_proj_ok", "Wf.check_order_ok", "Wf.check_hashagg_ok", "Wf.check_join_ok",
-            "Wf.check_hashjoin_residual", "Wf.check_apply", "Wf.schema_filter", "Wf.schema_order", "Wf.schema_limit",
+            "Wf.check_hashjoin_residual", "Wf.check_mergejoin_ok", "Wf.obligationsOk_ok", "Wf.check_apply", "Wf.schema_filter", "Wf.schema_order", "Wf.schema_limit",
             "Wf.schema_topn", "Wf.schema_proj", "Wf.schema_list", "Wf.applyProjOrder_schema", "Wf.wPlan_ok", "Wf.applyProjOrderOld_unsound",
             "Wf.applyProjOrder_regression"]
 # Thm/C17Proj.lean: projection pushdown keeps accepted plans accepted (repaired applier, fix 5c889c5)
@@ -160,6 +160,13 @@ def run(ck):
     ck.log(out.strip().split("\n")[-1][:160])
     if rc != 0:
         ck.report("translator:schema", "schema translator failed (rules/schema.rs analyze_schema is no longer of a shape the model is generated from): " + out[-300:],
+                  replay={"out": out[-1500:]}, found_input=False)
+    # which expression each builder arm resolves against which input, accepted join types and
+    # asserted residuals are regenerated from executor/mod.rs
+    rc, out = vlib.sh([sys.executable, os.path.join(vlib.VERIF, "translator/gen_builder.py"), vlib.REPO])
+    ck.log(out.strip().split("\n")[-1][:200])
+    if rc != 0:
+        ck.report("translator:builder", "builder translator failed (executor/mod.rs build_id_subscriber is no longer of a shape the model is generated from): " + out[-300:],
                   replay={"out": out[-1500:]}, found_input=False)
     # rules translator (stage composition is needed by the harness)
     rc, out = vlib.sh([sys.executable, os.path.join(vlib.VERIF, "translator/gen_rules.py"), vlib.REPO])
